@@ -1,19 +1,21 @@
 #!/bin/bash
-# Detection sweep over every seeded change, in scratch worktrees (tools/seedtest.sh), N at a time.
-# usage: tools/detect_all.sh [N] [dir-glob]     -> seeded/_source/detect.log (format read by tools/finish_seeds.py)
-N=${1:-2}; GLOB=${2:-/verif/seeded/C??-?}
+# Detection sweep over every seeded change (seeded/_source/Cxx/<a-d>), each tried out in a scratch worktree (tools/seedtest.sh),
+# N at a time: the quick check of the property it was written against + the extra checks listed in seeded/_extra_checks.
+# usage: tools/detect_all.sh [N] [glob under seeded/_source, default 'C??/[a-d]']   -> seeded/_source/detect.log (read by tools/finish_seeds.py)
+N=${1:-3}; GLOB=${2:-C??/[a-d]}
 OUT=/verif/seeded/_source/detect.log
 [ -n "$2" ] || : > $OUT
 one() {
-  d=$1; name=$(basename $d); pid=${name%-*}; v=${name#*-}; id=$pid/$v
+  dir=$1; v=$(basename $dir); pid=$(basename $(dirname $dir)); id=$pid/$v
+  patch=$dir/patch.rebased.diff; [ -f $patch ] || patch=$dir/patch.diff
   extra=$(grep "^$id " /verif/seeded/_extra_checks 2>/dev/null | cut -d' ' -f2-)
   for p in $pid $extra; do
-    out=$(SEEDTEST_LINES=1 /verif/tools/seedtest.sh $d/patch.diff $p 2>&1)
+    out=$(SEEDTEST_LINES=1 /verif/tools/seedtest.sh $patch $p 2>&1)
     rc=$(echo "$out" | grep -o "rc=[0-9]*" | head -1); first=$(echo "$out" | grep -E "VIOLATION|MACHINERY|DOES NOT APPLY" | head -1 | cut -c1-260)
     drift=$(echo "$out" | grep -c "drift item")
     echo "$id check=$p $rc drift=$drift :: $first" >> /verif/seeded/_source/detect.log
   done
 }
 export -f one
-ls -d $GLOB | xargs -P $N -I{} bash -c 'one {}'
+ls -d /verif/seeded/_source/$GLOB | xargs -P $N -I{} bash -c 'one {}'
 echo DONE >> $OUT
